@@ -187,7 +187,10 @@ def run_impl(case, solve=True):
     rec['rend'] = instant(restr.end, tz)
     rec['aa'] = None
     if args.get('block_size') is not None and restr.T > 0:
-        rec['aa'] = block_starts(restr, args['block_size'])
+        try:
+            rec['aa'] = block_starts(restr, args['block_size'])
+        except Exception as e:   # pandas calendar arithmetic fails (e.g. daily blocks over a non-existent local hour)
+            rec['aa_error'] = err_class(e)
     try:
         with Quiet():
             a = eao.assets.Storage(name=case['name'], nodes=nn[0] if len(nn) == 1 else nn, **args)
@@ -453,6 +456,12 @@ def nontrivial(case, rec):
 def run_case(case, drv, solve=True):
     r = {'evaluated': 1, 'nontrivial': False, 'features': features(case), 'disagreements': [], 'violations': []}
     rec = run_impl(case, solve=solve)
+    if rec.get('aa_error'):
+        # block boundaries are an input of the model; when pandas cannot compute them the code must fail as well
+        r['features'].append('blocks:pandas-error:' + rec['aa_error'])
+        if 'error' not in rec['result']:
+            r['disagreements'].append({'component': 'storage', 'detail': 'pandas date_range failed (%s) in the harness but set-up succeeded' % rec['aa_error']})
+        return r
     ans = drv.ask(request(case, rec))
     if 'ok' not in ans:
         r['disagreements'].append({'component': 'storage', 'detail': 'driver: %s' % ans.get('err')})
